@@ -25,18 +25,53 @@ def assigned_label(bi, path, local, is_input):
     return label
 
 
+STAGE_CALLS = ("std::iter::Iterator::skip", "std::iter::Iterator::take", "std::iter::Iterator::filter")
+
+
+def _has_stage(prog, bid, memo={}):
+    """does the synchronous cone of bid cut, filter or sort a sequence?"""
+    key = (id(prog), bid)
+    if key in memo:
+        return memo[key]
+    memo[key] = False
+    res = False
+    for cid in prog.cone(bid, follow=("call", "closure")):
+        ci = prog.info(cid)
+        if ci is None or (ci.body.coroutine and cid != bid):
+            continue
+        for bb, t in ci.calls():
+            n = t.callee.path.split("::")[-1]
+            if t.callee.path in STAGE_CALLS or (n.startswith("sort") and "slice" in t.callee.path):
+                res = True
+    memo[key] = res
+    return res
+
+
 def listing_bodies(prog):
-    """bodies that paginate: they ask Paging for the next page of what they return (or use skip + take)"""
+    """bodies that paginate: they ask Paging for the next page of what they return (or use skip + take).  A stage of the
+    pipeline may live in a helper (Paging::paginate(sorted), State::topics_in_project(..)): helpers that filter / sort / cut
+    are spliced into the listing body first, so the pipeline is judged as a whole wherever its pieces are written."""
     out = []
     paging = prog.anchors.ty("Paging")
+
+    def want(ti, bb, t):
+        return _has_stage(prog, prog.qual(ti.body, t.callee.target))
+
     for b in prog.facts.lib_bodies():
-        if b.impl_self == paging:
+        if b.impl_self == paging or b.kind == "Closure" and not b.coroutine:
             continue
-        bi = prog.info(b.id)
+        bi0 = prog.info(b.id)
+        if not any((t.callee.local or t.callee.res_local) and (t.callee.impl_self == paging or t.callee.target.startswith(paging + "::")
+                                                              or _has_stage(prog, prog.qual(b, t.callee.target)))
+                   for bb, t in bi0.calls()) and not any(t.callee.path in STAGE_CALLS for bb, t in bi0.calls()):
+            continue
+        vid = prog.inlined_variant(b.id, want)
+        bi = prog.info(vid)
         names = {t.callee.path for bb, t in bi.calls()}
         nextp = any((t.callee.local or t.callee.res_local) and t.callee.target.startswith(paging + "::next_page") for bb, t in bi.calls())
         if nextp or ("std::iter::Iterator::skip" in names and "std::iter::Iterator::take" in names):
-            out.append(b.id)
+            out.append(vid)
+    # a helper that was spliced into every listing body is not a listing of its own
     return out
 
 
@@ -391,7 +426,8 @@ def r13_3(prog, out):
         nid = A.cell(state, "next_id", optional=True)
         ws = [(bid, e) for bid in prog.facts.bodies for e in prog.effects(bid) if e.kind == "write" and not e.chain and e.touches(nid)] if nid else []
         if nid is not None and not ws:
-            raise CheckBroken("no writer of %s.next_id" % state)
+            out.violation("id-counter:%s:never-advanced" % label, "", "%s.next_id is never written: every %s gets the same internal id, so the listing "
+                          "order among them is arbitrary (not creation order)" % (state, label))
         for bid, e in ws:
             bi2 = prog.info(bid)
             k = increment_kind(bi2, e)
@@ -416,24 +452,75 @@ def r13_3(prog, out):
                               "backwards, so listing order is no longer creation order" % (label, how or "no counter field"))
 
 
+def emptiness_regions(prog, bi):
+    """(empty, nonempty): blocks only reached when a slice / Vec of this body was found empty / non-empty, however the test
+    is written: is_empty(), len() == 0, len() != 0, len() > 0, len() >= 1, `match len() { 0 => .., _ => .. }`"""
+    from mapstate import _bool_switches
+    body = bi.body
+    empty, nonempty = set(), set()
+
+    def is_len(op):
+        o = bi.trace(op)
+        return o.kind == "call" and not o.path and bi.call_at(o.data).callee is not None and bi.call_at(o.data).callee.path.endswith("::len")
+
+    def mark(sw, tgt, what):
+        if tgt is not None:
+            (empty if what else nonempty).update(bi.cfg.edge_dominated(sw, tgt))
+
+    for bb, t in bi.calls(lambda c: c.path.endswith("::is_empty")):
+        if t.dest is not None and t.dest.is_local():
+            for sw, tr, fa in _bool_switches(bi, t.dest.local):
+                mark(sw, tr, True)
+                mark(sw, fa, False)
+    for blk in body.blocks:
+        if blk.cleanup or blk.idx not in bi.cfg.reach:
+            continue
+        for st in blk.stmts:
+            if st.k == "assign" and st.lhs.is_local() and st.rv.k == "bin" and st.rv.j["op"] in ("Eq", "Ne", "Gt", "Ge", "Lt", "Le"):
+                a, b2 = st.rv.ops
+                op = st.rv.j["op"]
+                if is_len(a) and b2.const_int() is not None:
+                    c = b2.const_int()
+                elif is_len(b2) and a.const_int() is not None:
+                    c = a.const_int()
+                    op = {"Lt": "Gt", "Le": "Ge", "Gt": "Lt", "Ge": "Le", "Eq": "Eq", "Ne": "Ne"}[op]
+                else:
+                    continue
+                ev = {"Eq": lambda n: n == c, "Ne": lambda n: n != c, "Gt": lambda n: n > c, "Ge": lambda n: n >= c, "Lt": lambda n: n < c, "Le": lambda n: n <= c}[op]
+                at0 = ev(0)
+                rest = {ev(1), ev(2), ev(10 ** 9), ev(max(c, 1)), ev(max(c, 1) + 1), ev(max(c - 1, 1))}
+                if len(rest) != 1 or rest == {at0}:
+                    continue            # does not separate empty from non-empty
+                for sw, tr, fa in _bool_switches(bi, st.lhs.local):
+                    mark(sw, tr if at0 else fa, True)
+                    mark(sw, fa if at0 else tr, False)
+        t = blk.term
+        if t.k == "switch" and t.discr is not None and t.discr.place is not None and is_len(t.discr):
+            arms = dict(t.arms)
+            if 0 in arms and len(arms) == 1:
+                mark(blk.idx, arms[0], True)
+                mark(blk.idx, t.otherwise, False)
+    return empty, nonempty
+
+
 @rule("C13", "R13.4", "next offset = offset + page length on a non-empty page, none on an empty page", floor=1)
 def r13_4(prog, out):
     A = prog.anchors
     paging = A.ty("Paging")
+    sl = Slicer(prog)
     cands = [b.id for b in prog.facts.lib_bodies() if b.impl_self == paging and b.kind == "AssocFn" and any(
         t.callee.path.endswith("<impl [T]>::is_empty") or t.callee.path.endswith("<impl [T]>::len") for bb, t in prog.info(b.id).calls())]
     if not cands:
         raise CheckBroken("next-page body not found")
-    R_empty_true = None
+    off = A.cell("Paging", "offset")
     for bid in cands:
         bi = prog.info(bid)
         b = bi.body
-        from actorlib import roles
-        R = roles(prog)
-        empty_blocks = R.call_result_arm_blocks(bi, lambda bb, t: t.callee.path.endswith("::is_empty"), True)
-        nonempty_blocks = R.call_result_arm_blocks(bi, lambda bb, t: t.callee.path.endswith("::is_empty"), False)
+        empty_blocks, nonempty_blocks = emptiness_regions(prog, bi)
         somes, nones = [], []
         for blk in b.blocks:
+            if blk.cleanup or blk.idx not in bi.cfg.reach:
+                continue
             for i, s in enumerate(blk.stmts):
                 if s.k == "assign" and s.rv.k == "agg" and s.rv.j.get("adt") == "std::option::Option":
                     (somes if s.rv.j["variant"] == "Some" else nones).append((blk.idx, i, s))
@@ -446,43 +533,38 @@ def r13_4(prog, out):
             if bb not in nonempty_blocks:
                 ok = False
                 out.violation(key + ":some-arm", bi.loc(bb), "a next offset is produced for an empty page: following the token never terminates")
-            # value = to_skip + len
-            o = bi.trace(s.rv.ops[0])
-            good = False
-            if o.kind in ("expr", "local"):
-                # `_8 = move _12.0` with _12 = AddWithOverflow(skip, len)
-                src = s.rv.ops[0].place.local
-                for (db, di) in bi.defs.get(src, []):
-                    if di >= 0:
-                        st = bi.stmt(db, di)
-                        if st.rv.k == "use" and st.rv.ops[0].place is not None:
-                            for (db2, di2) in bi.defs.get(st.rv.ops[0].place.local, []):
-                                if di2 >= 0 and bi.stmt(db2, di2).rv.k == "bin":
-                                    st = bi.stmt(db2, di2)
-                        if st.rv.k == "bin" and st.rv.j["op"] in ("Add", "AddWithOverflow"):
-                            srcs = []
-                            for op in st.rv.ops:
-                                oo = bi.trace(op)
-                                if oo.kind == "call":
-                                    srcs.append(bi.call_at(oo.data).callee.target.split("::")[-1])
-                                elif op.const_int() is not None:
-                                    srcs.append("const")
-                                else:
-                                    srcs.append("?")
-                            good = sorted(srcs) == ["len", "to_skip"]
-                            if not good:
-                                ok = False
-                                out.violation(key + ":value", bi.loc(bb), "next offset is computed from (%s) instead of offset + page length: resources are skipped or repeated" % ", ".join(srcs))
-            if not good and ok:
-                ok = None
+            # value = (offset to skip) + (page length): a sum of exactly a read of Paging.offset (defaulting to 0) and len(page)
+            sv = sl.of(bid, s.rv.ops[0])
+            pf = {f for f in sv.fields if f[0] == paging}
+            lens = [c for c in sv.calls if c.endswith("::len")]
+            arith = {o for o in sv.ops if not o.startswith("cast:")}
+            consts = set()
+            for c in sv.consts:
+                try:
+                    consts.add(int(c))
+                except (TypeError, ValueError):
+                    pass
+            what = []
+            if pf != {off}:
+                what.append("Paging fields %s" % sorted(f[1] for f in pf))
+            if not lens:
+                what.append("no page length")
+            if not (arith and arith <= {"Add", "AddWithOverflow"}):
+                what.append("operators %s" % sorted(arith))
+            if consts - {0}:
+                what.append("constants %s" % sorted(consts - {0}))
+            other_calls = {c.split("::")[-1] for c in sv.calls} & {"max", "min", "saturating_add", "saturating_sub", "wrapping_add", "checked_add", "pow", "count", "capacity"}
+            if other_calls:
+                what.append("calls %s" % sorted(other_calls))
+            if what:
+                ok = False
+                out.violation(key + ":value", bi.loc(bb), "next offset is computed from (%s) instead of offset + page length: resources are skipped or repeated" % "; ".join(what))
         for (bb, i, s) in nones:
             if bb not in empty_blocks:
                 ok = False
                 out.violation(key + ":none-arm", bi.loc(bb), "no next offset is produced although the page is non-empty: the walk stops early")
         if ok:
             out.holds(key, prog.loc(bid), "Some(offset + len) exactly on the non-empty arm, None on the empty arm")
-        elif ok is None:
-            out.undecided(key, prog.loc(bid), "offset arithmetic not recognised")
 
 
 @rule("C13", "R13.5", "page-token encode and decode agree (same base64 engine, same byte order)", floor=1)
